@@ -202,7 +202,20 @@ fn attribute(hist: &[String], idx: usize, want: &str) -> String {
         }
     }
     if !names.is_empty() {
-        return names.join("+");
+        let mut cache = names.join("+");
+        if cache.contains("inverse") {
+            // is it the table length baked by the "match a constant exactly" inverse (un.rs MatchConst)?
+            let h = history(&hist[..=idx], hooks::MATCH_CONST_SPAN);
+            let p = hist[idx].clone();
+            let f = in_thread(move || {
+                hooks::set_bypass(hooks::MATCH_CONST_SPAN);
+                outcome(&p)
+            });
+            if f.is_some() && h.get(idx) == f.as_ref() {
+                cache.push_str(":spans-len");
+            }
+        }
+        return cache;
     }
     let h = history(&hist[..=idx], 127);
     if h.get(idx).map(|s| s.as_str()) == Some(want) { "several-caches".into() } else { "other-state".into() }
@@ -333,6 +346,27 @@ fn edits(r: &mut Rng, p: &str) -> Vec<(&'static str, String)> {
     out.push(("shift-fn", format!("Zq ← ⊟\n{p}")));
     out.push(("indent", p.lines().map(|l| if is_binding_line(l) { l.replacen(" ← ", "  ←  ", 1) } else { l.to_string() }).collect::<Vec<_>>().join("\n")));
     let lines: Vec<&str> = p.lines().collect();
+    // turn a constant definition into a constant function or back: the function indices of the
+    // later definitions move while no span does
+    for i in 0..lines.len() {
+        let l = lines[i];
+        if !is_binding_line(l) {
+            continue;
+        }
+        let Some((name, body)) = l.split_once(" ← ") else { continue };
+        let body = body.trim();
+        let new = if !body.is_empty() && body.chars().all(|c| c.is_ascii_digit()) {
+            format!("{name} ← ({body})")
+        } else if body.starts_with('(') && body.ends_with(')') && body.len() > 2 && body[1..body.len() - 1].chars().all(|c| c.is_ascii_digit()) {
+            format!("{name} ← {}", &body[1..body.len() - 1])
+        } else {
+            continue;
+        };
+        let mut l2: Vec<String> = lines.iter().map(|x| x.to_string()).collect();
+        l2[i] = new;
+        out.push(("const-fn", l2.join("\n")));
+        break;
+    }
     // reorder two adjacent single-line definitions
     for i in 0..lines.len().saturating_sub(1) {
         if is_binding_line(lines[i]) && is_binding_line(lines[i + 1]) && !lines.get(i + 2).map_or(false, |l| l.starts_with(' ')) {
@@ -383,14 +417,16 @@ fn edits(r: &mut Rng, p: &str) -> Vec<(&'static str, String)> {
     out
 }
 
-const MON_BODIES: [&str; 14] = ["⊂1", "+1", "⊢", "↙2", "⇌", "√", "⊏1", "↘1", "°□", "⊂⊙1", "×2", "⍉", "⍏", "◴"];
+const MON_BODIES: [&str; 16] = ["⊂1", "+1", "⊢", "↙2", "⇌", "√", "⊏1", "↘1", "°□", "⊂⊙1", "×2", "⍉", "⍏", "◴", "⊙5", "⊂⊙(5)"];
 const DY_BODIES: [&str; 8] = ["×", "+", "⊂", "-", "⊟", "↥", "⊏", "⊡"];
 const VALUES: [&str; 12] = ["[2 2]", "[1 2 3]", "[]", "5", "\"ab\"", "[1_2 3_4]", "↯2_0 0", "{1 2}", "[1_2 3_5]", "[4 5 6]", "[3_4 1_2]", "[1 4 9]"];
 /// use lines; F = a monadic definition, D = a dyadic definition, V = a value
-const USES: [&str; 30] = [
+const USES: [&str; 35] = [
     "°F V", "°⊙F X V", "°(F⇌) V", "°(⇌F) V", "⌝D 1 V", "°(D1) V", "⍜F(⊂3) V", "⍜⊙F(+1) X V", "⍜(F⇌)(↙1) V", "⍜F⇌ V",
     "⍜(↙2)F V", "⍜F(↙1) V", "⍜(⊙F)⊂ X V", "≡F V", "≡(F⇌) V", "≡(/D⇌) V", "∵F V", "≡⊢ V", "≡(⊢⇌) V", "F V", "/D V",
     "⊞D V V", "⍥F 3 V", "⍣F⋅0 V", "≡(□F) V", "⍚F V", "≡(¯/D⇌) V", "⧈F V", "°⊂ V", "∧D V V",
+    // C = a constant FUNCTION: the cached inverse keeps a call to it
+    "°(+C) +⌊⚂ V", "°(×C) +⌊⚂ V", "⍜(+C)(×2) +⌊⚂ V", "°(⊂C) ⊂⌊⚂ V", "⍜(-C)⇌ +⌊⚂ V",
 ];
 
 fn gen_program(r: &mut Rng, fam: &[(usize, usize, usize, usize)]) -> String {
@@ -399,6 +435,9 @@ fn gen_program(r: &mut Rng, fam: &[(usize, usize, usize, usize)]) -> String {
     // the same content under other names, sometimes
     let (fname, dname) = if r.chance(1, 3) { ("P", "Q") } else { ("F", "D") };
     let mut defs = vec![format!("{fname} ← {}", MON_BODIES[mb]), format!("{dname} ← {}", DY_BODIES[db]), "X ← 5".to_string()];
+    if USES[u].contains('C') {
+        defs.push("C ← (7)".to_string());
+    }
     // other definitions that move indices and positions
     let extra = ["G ← +", "H ← ⊂2", "Y ← 7", "K ← ⊟", "# note", ""];
     for _ in 0..r.below(3) {
@@ -639,7 +678,10 @@ fn main() {
             let mut s = Search { fresh: Fresh { cache: HashMap::new(), evals: 0 }, evals: 0, histories: 0, compared: 0, skipped: 0, viol: HashMap::new(), fam: HashMap::new() };
             // (1) the regression corpus, always and first: every history that ever differed from
             //     a fresh thread (the first nine were repaired by 25aa9f6 and must stay repaired)
-            let fixed: [&[&str]; 13] = [
+            let fixed: [&[&str]; 17] = [
+                // same spans, the function index of K moves (X is a constant / a constant function)
+                &["X ← 5\nK ← (7)\nF ← °(+K)\nF ⌊⚂", "X ← (5)\nK ← (7)\nF ← °(+K)\nF ⌊⚂"],
+                &["X ← (5)\nK ← (7)\nF ← °(+K)\nF ⌊⚂", "X ← 5\nK ← (7)\nF ← °(+K)\nF ⌊⚂"],
                 &["F ← ⊂1\nX ← 5\n°⊙F X [2 2]", "X ← 5\nF ← ⊂1\n°⊙F X [2 2]"],
                 &["X ← 5\n\n≡⊢ ↯2_0 0", "≡⊢ ↯2_0 0"],
                 &["A ← 1\nB ← 2\nC ← 3\nD ← +A×B C\nE ← ⊂⊟A B [C D]\n≡⊢ ↯2_0 0", "≡⊢ ↯2_0 0"],
@@ -649,8 +691,12 @@ fn main() {
                 &["Y ← 7\nX ← 5\nD ← +\nF ← √\nY ← 7\n≡(¯/D⇌) [3_4 1_2]\n", "F ← √\nX ← 5\nD ← +\n≡(¯/D⇌) [1_2 3_5]\n"],
                 &["F ← ⊂1\nX ← 5\n⍜⊙F(⊂3) X [2 2]", "X ← 5\nF ← ⊂1\n⍜⊙F(⊂3) X [2 2]"],
                 &["F ← ⊢\nX ← 5\n≡(F⇌) ↯2_0 0", "X ← 5\nF ← ⊢\n≡(F⇌) ↯2_0 0"],
-                // still open: the purity cache, and the names of function handles
+                // still open: the spans-table length baked by the "match a constant exactly" inverse
+                &["F ← ⊙5\n°F 1 6", "F ← ⊙5\nX ← 1\nY ← 2\n°F 1 6"],
+                &["F ← ⊙5\nX ← 1\nY ← 2\nZ ← 3\n°F 1 6", "F ← ⊙5\n°F 1 6"],
+                // still open: the purity cache
                 &["X ← ⚂\n°(⊂X) [1 2]", "F ← |0.1 (°(⊂F) [1 2])\nF"],
+                // the names of function handles (repaired by 7da4086)
                 &["F ← ⍏\n°F [1 2]", "G ← ⍏\n°G [1 2]"],
                 &["F ← ⊏\n≡(/F⇌) [1_2 3_9]", "G ← ⊏\n≡(/G⇌) [1_2 3_8]"],
                 &["F ← ⍏\n⍜F⇌ [1 2]", "G ← ⍏\n⍜G⇌ [1 2]"],
@@ -666,6 +712,19 @@ fn main() {
                 let len = 2 + r.below(4);
                 let progs: Vec<String> = (0..len).map(|_| gen_program(&mut r, &fam)).collect();
                 s.run_history("generated", &progs);
+            }
+            // (2b) a generated program that keeps a call to a constant function in a cached inverse,
+            //      paired with its const-fn edit (same spans, other function indices), both orders
+            let c_uses: Vec<usize> = (0..USES.len()).filter(|u| USES[*u].contains('C')).collect();
+            for _ in 0..(n / 4).max(10) {
+                let fam = [(r.below(MON_BODIES.len()), r.below(DY_BODIES.len()), *r.pick(&c_uses), r.below(VALUES.len()))];
+                let p = gen_program(&mut r, &fam);
+                for (kind, e) in edits(&mut r, &p) {
+                    if kind == "const-fn" {
+                        s.run_history("generated-const-fn", &[p.clone(), e.clone()]);
+                        s.run_history("generated-const-fn", &[e, p.clone()]);
+                    }
+                }
             }
             // (3) corpus: consecutive chunks of a file, and chunks with their edits
             let files = corpus_chunks();
@@ -689,12 +748,13 @@ fn main() {
             for _ in 0..m {
                 let p = all[r.below(all.len())].clone();
                 let es = edits(&mut r, &p);
-                let structural: Vec<&(&'static str, String)> = es.iter().filter(|(k, _)| matches!(*k, "reorder" | "rename" | "revalue")).collect();
+                let structural: Vec<&(&'static str, String)> = es.iter().filter(|(k, _)| matches!(*k, "reorder" | "rename" | "revalue" | "const-fn")).collect();
                 let (kind, e) = if !structural.is_empty() && r.chance(2, 3) { (*r.pick(&structural)).clone() } else { es[r.below(es.len())].clone() };
                 let fam: &'static str = match kind {
                     "reorder" => "edit-reorder",
                     "rename" => "edit-rename",
                     "revalue" => "edit-revalue",
+                    "const-fn" => "edit-const-fn",
                     _ => "edit-shift",
                 };
                 let progs = if r.chance(1, 2) { vec![e, p] } else { vec![p, e] };
@@ -765,6 +825,7 @@ fn main() {
                 let inv_eq = hooks::inverse_key(sx, ax) == hooks::inverse_key(sy, ay);
                 let zip_eq = hooks::zip_key(x) == hooks::zip_key(y);
                 let mut collide = "2";
+                let mut un_show = String::new();
                 let mut x_usable = true;
                 let (un_eq, sg_eq) = if fcmp {
                     let (a, b) = (real_un(x, ax), real_un(y, ay));
@@ -777,6 +838,7 @@ fn main() {
                     };
                     x_usable = a.as_ref().map_or(true, |s| !s.starts_with('N'));
                     if un == "0" || un == "3" {
+                        un_show = format!("{} | {}", a.as_deref().unwrap_or(""), b.as_deref().unwrap_or("")).chars().take(600).collect();
                         // the real cache: does y's inverse, asked right after x's, come out as in a fresh thread?
                         collide = match real_un_after(x, ax, y, ay) {
                             Some(after) if Some(after.as_str()) == b.as_ref().map(|s| &s[1..]) => "0",
@@ -789,7 +851,7 @@ fn main() {
                     ("2", "2")
                 };
                 println!(
-                    "{{\"i\":{},\"kind\":{},\"x\":{},\"y\":{},\"sig_eq\":{},\"node_eq\":{},\"inv_eq\":{},\"zip_eq\":{},\"un_eq\":{},\"rsig_eq\":{},\"un_collide\":{},\"x_usable\":{},\"show\":{}}}",
+                    "{{\"i\":{},\"kind\":{},\"x\":{},\"y\":{},\"sig_eq\":{},\"node_eq\":{},\"inv_eq\":{},\"zip_eq\":{},\"un_eq\":{},\"rsig_eq\":{},\"un_collide\":{},\"x_usable\":{},\"lx\":{},\"ly\":{},\"un_show\":{},\"show\":{}}}",
                     *k,
                     jstr(kind),
                     jstr(&export_slice(x, ax)),
@@ -802,6 +864,9 @@ fn main() {
                     sg_eq,
                     collide,
                     x_usable,
+                    ax.spans.len(),
+                    ay.spans.len(),
+                    jstr(&un_show),
                     jstr(&format!("{x:?} | {y:?}"))
                 );
                 *k += 1;
@@ -871,6 +936,21 @@ fn main() {
                         let mut y = t.clone();
                         if swap_calls(&mut y, &fs) > 0 {
                             emit("fn-index", &t, &asm, &y, &asm2, fcmp, &mut k);
+                        }
+                    }
+                    // same bodies, same spans, other indices (an earlier constant becomes a constant function or back)
+                    for (kind, e) in edits(&mut r, &src) {
+                        if kind != "const-fn" {
+                            continue;
+                        }
+                        if let Some(asm4) = compile_lazy(&e) {
+                            let mut fs = HashMap::new();
+                            collect_funcs(&asm4.root, &mut fs);
+                            let moved = have.iter().any(|(k, f)| fs.get(k).map_or(false, |g| hooks::function_parts(g).0 != hooks::function_parts(f).0));
+                            let mut y = t.clone();
+                            if moved && asm4.spans.len() == asm.spans.len() && swap_calls(&mut y, &fs) > 0 {
+                                emit("fn-index-only", &t, &asm, &y, &asm4, fcmp, &mut k);
+                            }
                         }
                     }
                     // same bodies with other span indices (definitions in another order)
